@@ -740,6 +740,76 @@ pub fn run(cfg: &Cfg) -> Report {
     }
   }
 
+  // ---------------------------------------------------------------- integer powers against the exact power
+  // (`**` with an integer exponent: the exact result is a rational computed by the driver with unbounded
+  // naturals; the property grants inexact powers two units in the last place). The exponent is given in
+  // several representations of the same integer (10000, 1E+4, 100E+2): results of FEEL arithmetic are
+  // reduced, so a computed exponent usually has folded trailing zeros.
+  {
+    let bases = [
+      "1.0001", "0.9999", "2", "3", "1.5", "7", "0.5", "1.000000001", "12345.678", "-2", "-1.5", "9.99", "1234567890123456789012345678901234", "0.1", "1.1", "99", "1.0000000000000000000000000000000001",
+    ];
+    let exps: [i64; 22] = [0, 1, 2, 3, 5, 7, 10, 17, 64, 100, 120, 365, 1000, 4000, 4096, 10000, 20000, -1, -2, -3, -10, -100];
+    let mut pow_cases: Vec<(D, i64, D)> = vec![];
+    for b in bases {
+      let a = match parse_sci(&dec_to_string(&dec_from_string(b))) {
+        Some(DecV::Fin(d)) => d,
+        _ => continue,
+      };
+      for n in exps {
+        if !thorough && rng.chance(1, 2) {
+          continue;
+        }
+        // the driver raises the coefficient to the power with unbounded naturals: keep that below 40 000 digits
+        if (n.unsigned_abs() as usize) * a.coeff.len() > 40_000 {
+          continue;
+        }
+        // representations of n: plain, and with 1..4 trailing zeros folded into the exponent
+        let mut reps = vec![D::new(n < 0, &n.abs().to_string(), 0)];
+        let mut c = n.abs();
+        let mut e = 0;
+        while c != 0 && c % 10 == 0 && e < 4 {
+          c /= 10;
+          e += 1;
+          reps.push(D::new(n < 0, &c.to_string(), e));
+        }
+        for r in reps {
+          pow_cases.push((a.clone(), n, r));
+        }
+      }
+    }
+    let mut reqs = vec![];
+    let mut kept = vec![];
+    for (a, n, nrep) in &pow_cases {
+      let raw = guarded(|| show_quad(&dec_power(&a.quad(), &nrep.quad())));
+      match raw {
+        Ok(Some(DecV::Fin(r))) => {
+          reqs.push(format!("(c02 judgepow {} {} {})", a.wire(), n, r.wire()));
+          kept.push((a.clone(), *n, nrep.clone(), r));
+        }
+        Ok(_) => rep.hit("powint:not-finite"),
+        Err(p) => rep.disagree(Kind::ImplVsSpec, "pow", "dec_power panics", &format!("{} ** {}", a.to_sci_input(), nrep.to_sci_input()), &p, "a number"),
+      }
+    }
+    let answers = model.ask_batch(&reqs);
+    for (((a, n, nrep, r), req), ans) in kept.iter().zip(reqs.iter()).zip(answers.iter()) {
+      rep.case(req, *n != 0 && *n != 1);
+      rep.hit("op:powint");
+      if ans.contains("false") {
+        rep.disagree(
+          Kind::ImplVsSpec,
+          "pow",
+          "an integer power differs from the exact power by more than two units in the last place",
+          &format!("{} ** {} (exponent {} written as {})", a.to_sci_input(), nrep.to_sci_input(), n, nrep.to_sci_input()),
+          &r.to_sci_input(),
+          "within two units in the 34th digit of the exact power",
+        );
+      } else if ans.contains("na") {
+        rep.hit("powint:not-judged");
+      }
+    }
+  }
+
   // ---------------------------------------------------------------- comparison
   let n_cmp = if thorough { 200_000 } else { 6_000 };
   let mut cmp_cases: Vec<(D, D)> = vec![];
